@@ -9,6 +9,7 @@ of go-rpcgen's xdr primitives (tied to the real `Xdr` methods by the `xdr` corre
 import GoNfsd.Lemmas.XdrRoundtrip
 import GoNfsd.Lemmas.XdrPrefix
 import GoNfsd.Lemmas.XdrReenc
+import GoNfsd.Lemmas.XdrCanon
 import GoNfsd.Gen.Xdr
 import GoNfsd.Gen.Dispatch
 import GoNfsd.Spec.Rfc1813
@@ -114,6 +115,28 @@ theorem encode_decode_encode (t : Ty) (v : Val) (bs : List UInt8) (h : enc t v =
   have := dec_enc t v bs [] h
   simp at this
   simp [this, h]
+
+/-- ON CANONICAL INPUT THE RE-ENCODING IS THE INPUT, byte for byte: if every boolean and every
+    presence flag the decoder reads is 0 or 1 and every padding byte is zero (`canon`, a syntactic
+    test that follows the decoder through the input), then encoding the decoded value gives back
+    exactly the bytes that were consumed.  So the decoder's leniency is those two freedoms and
+    nothing else: two accepted inputs that decode to the same value differ only in the spelling of
+    booleans and in padding. -/
+theorem canonical_input_reencodes_to_itself (t : Ty) (bs : List UInt8) (v : Val) (r : List UInt8)
+    (h : dec t bs = some (v, r)) (hc : canon t bs = true) :
+    ∃ c, enc t v = some c ∧ bs = c ++ r := dec_canon t bs v r h hc
+
+/-- what the encoder writes is canonical input (the premise above is met by every encoder output) -/
+example : canon (.struct [.bool, .str (some 8), .chain [.u32]])
+    [0, 0, 0, 1, 0, 0, 0, 1, 65, 0, 0, 0, 0, 0, 0, 1, 0, 0, 0, 9, 0, 0, 0, 0] = true := by decide
+example : ((dec (.struct [.bool, .str (some 8), .chain [.u32]])
+      [0, 0, 0, 1, 0, 0, 0, 1, 65, 0, 0, 0, 0, 0, 0, 1, 0, 0, 0, 9, 0, 0, 0, 0]).bind
+      fun p => enc (.struct [.bool, .str (some 8), .chain [.u32]]) p.1) =
+    some [0, 0, 0, 1, 0, 0, 0, 1, 65, 0, 0, 0, 0, 0, 0, 1, 0, 0, 0, 9, 0, 0, 0, 0] := by decide
+/-- and the test does refuse the two freedoms: a boolean written as 7, a padding byte 9, a presence flag 2 -/
+example : canon (.struct [.bool, .str (some 8)]) [0, 0, 0, 7, 0, 0, 0, 1, 65, 0, 0, 0] = false := by decide
+example : canon (.struct [.bool, .str (some 8)]) [0, 0, 0, 1, 0, 0, 0, 1, 65, 0, 9, 0] = false := by decide
+example : canon (.chain [.u32]) [0, 0, 0, 2, 0, 0, 0, 9, 0, 0, 0, 0] = false := by decide
 
 /-- a boolean written as 7 and padding bytes 9 9 9 are accepted; re-encoding normalises them and
     keeps the length -/
